@@ -154,7 +154,7 @@ package types
 //@   ghostvar v0 int = 0
 //@   oncall RawSignatureValues: v0 = bigval(result0)
 //@   ensures txTypeOf(tx) != 0 ==> err == ErrTxTypeNotSupported
-//@   atcall recoverPlain#1 requires bigval(arg4) == v0 && arg5
+//@   atcall recoverPlain requires bigval(arg4) == v0 && arg5
 
 // Frontier: legacy transactions only; V as stored; high s still allowed.
 //@ func (fs FrontierSigner) Sender(tx *Transaction) (addr common.Address, err error)
@@ -163,7 +163,7 @@ package types
 //@   ghostvar v0 int = 0
 //@   oncall RawSignatureValues: v0 = bigval(result0)
 //@   ensures txTypeOf(tx) != 0 ==> err == ErrTxTypeNotSupported
-//@   atcall recoverPlain#1 requires bigval(arg4) == v0 && !arg5
+//@   atcall recoverPlain requires bigval(arg4) == v0 && !arg5
 
 // EIP-155: a protected transaction is accepted only for the signer's chain id, and the value
 // checked by recoverPlain is V - 2*chainId - 8 (27 or 28 exactly when V = {35,36} + 2*chainId).
@@ -179,7 +179,7 @@ package types
 //@   oncall Protected: prot = result
 //@   ensures txTypeOf(tx) != 0 ==> err == ErrTxTypeNotSupported
 //@   ensures err == nil && prot ==> cid == bigval(s.chainId)
-//@   atcall recoverPlain#1 requires bigval(arg4) == v0 - 2 * bigval(s.chainId) - 8 && arg5
+//@   atcall recoverPlain requires bigval(arg4) == v0 - 2 * bigval(s.chainId) - 8 && arg5
 
 // Typed transactions (and legacy ones, delegated): a type outside the signer's fork set is
 // refused; a typed transaction is accepted only for the signer's chain id, and its recovery
@@ -199,4 +199,4 @@ package types
 //@   oncall supportsType: sup = result
 //@   ensures !sup ==> err == ErrTxTypeNotSupported
 //@   ensures err == nil && txTypeOf(tx) != 0 ==> cid == bigval(s.chainID)
-//@   atcall recoverPlain#1 requires bigval(arg4) == v0 + 27 && arg5
+//@   atcall recoverPlain requires bigval(arg4) == v0 + 27 && arg5
